@@ -238,6 +238,7 @@ class Interp:
         self.on_event = on_event
         self.interp_prog = interpret_program_functions
         self.trace_lines: List[int] = []
+        self.class_state: Dict[tuple, Any] = {}     # (class name, attribute) -> value stored at run time
 
     # ------------------------------------------------------------------ public API
     def event(self, *ev):
@@ -582,6 +583,10 @@ class Interp:
                 self.assign(e, x, env)
         elif isinstance(t, ast.Attribute):
             base = self.eval(t.value, env)
+            if isinstance(base, ClassRef):
+                self.class_state[(base.name, t.attr)] = v
+                self.event("class-store", base.name, t.attr)
+                return
             if isinstance(base, (Obj, _NativeModel)):
                 hook = self.ext.get("setattr")
                 if hook:
@@ -799,6 +804,8 @@ class Interp:
         """Method / property / class attribute of a model instance through the program's MRO; stubs registered
         as ``ext['Cls.attr']`` take precedence (they receive the instance as first argument)."""
         for c in self.prog.mro(base.cls):
+            if (c, attr) in self.class_state:
+                return self.class_state[(c, attr)]
             key = f"{c}.{attr}"
             if key in self.ext:
                 stub = self.ext[key]
@@ -823,6 +830,8 @@ class Interp:
         return _MISSING
 
     def getattr(self, base, attr: str, node, env: Optional[Env] = None):
+        if attr == "__class__" and isinstance(base, (Obj, _NativeModel)) and base.cls:
+            return ClassRef(base.cls)
         if isinstance(base, TupleObj) and attr in base.fields:
             return base[base.fields.index(attr)]
         if isinstance(base, NTClass) and attr == "__name__":
@@ -876,10 +885,15 @@ class Interp:
                 r = self._class_member(base, attr)
                 if r is not _MISSING:
                     return r
+            if "__getattr__" in base.attrs:
+                return base.attrs["__getattr__"](attr)
             raise Raised(ExcVal("AttributeError", (attr,)), node)
         if isinstance(base, ClassRef):
             if attr == "__name__":
                 return base.name
+            for c in (self.prog.mro(base.name) if base.name in self.prog.classes else [base.name]):
+                if (c, attr) in self.class_state:
+                    return self.class_state[(c, attr)]
             key = f"{base.name}.{attr}"
             if key in self.ext:
                 return self.ext[key]
@@ -1032,8 +1046,20 @@ class Interp:
                 parts.append(str(v.value))
             else:
                 x = self.eval(v.value, env)   # evaluation may raise (that is the point for error-path rules)
+                spec = ""
+                if v.format_spec is not None:
+                    spec = self.ev_JoinedStr(v.format_spec, env)
                 if isinstance(x, (int, float, str, bool, bytes, type(None))):
-                    parts.append(str(x))
+                    try:
+                        if v.conversion == 114:
+                            x = repr(x)
+                        elif v.conversion == 115:
+                            x = str(x)
+                        elif v.conversion == 97:
+                            x = ascii(x)
+                        parts.append(format(x, spec))
+                    except Exception as ex:
+                        raise Raised(ExcVal(type(ex).__name__, ex.args), v)
                 else:
                     parts.append(f"<{type(x).__name__}>")
         return "".join(parts)
